@@ -744,7 +744,13 @@ struct Ctx {
 };
 
 std::string show_out(const std::string& out, bool binary) {
-    return binary ? "hex:" + vh::hexdump(out, 400) : out.substr(0, 800);
+    if (binary) return "hex:" + vh::hexdump(out, 400);
+    std::string r;   // keep the witness printable (a damaged text may contain NUL bytes)
+    for (size_t i = 0; i < out.size() && i < 800; ++i) {
+        const unsigned char ch = static_cast<unsigned char>(out[i]);
+        if (ch < 0x20 || ch >= 0x7f) r += vh::fmt("\\x%02x", ch); else r += out[i];
+    }
+    return r;
 }
 
 std::string witness(const Ctx& c, const char* fmtname, const Outcome& o, bool binary) {
